@@ -150,4 +150,53 @@ theorem checkFields_sound (C : List Cover) (hC : complete C = true) : ∀ (hs : 
           rw [checkEq_sound C hC v w h.1, hrest]
 end
 
+/-! ### no false failures: a value whose objects carry the attributes the table lists compares equal to itself -/
+
+mutual
+/-- every object has exactly the attributes the coverage table lists for its class (what `T.to_val` produces) -/
+def shaped (C : List Cover) : Val → Bool
+  | .node c fs => fs.length == (coverOf C c).length && shapedList C fs
+  | .list xs => shapedList C xs
+  | _ => true
+def shapedList (C : List Cover) : List Val → Bool
+  | [] => true
+  | x :: xs => shaped C x && shapedList C xs
+end
+
+mutual
+theorem checkEq_refl (C : List Cover) : ∀ (v : Val), shaped C v = true → checkEq C v v = true
+  | .none, _ => by simp [checkEq, beqVal]
+  | .tok s f, _ => by simp [checkEq, beqVal]
+  | .list xs, h => by
+    simp only [shaped] at h
+    simp only [checkEq]
+    exact checkList_refl C xs h
+  | .node c fs, h => by
+    simp only [shaped, Bool.and_eq_true, beq_iff_eq] at h
+    simp only [checkEq, beq_self_eq_true, Bool.true_and]
+    exact checkFields_refl C (coverOf C c) fs h.1 h.2
+theorem checkList_refl (C : List Cover) : ∀ (xs : List Val), shapedList C xs = true → checkList C xs xs = true
+  | [], _ => rfl
+  | x :: xs, h => by
+    simp only [shapedList, Bool.and_eq_true] at h
+    simp only [checkList, Bool.and_eq_true]
+    exact ⟨checkEq_refl C x h.1, checkList_refl C xs h.2⟩
+theorem checkFields_refl (C : List Cover) : ∀ (hs : List (String × How)) (vs : List Val),
+    vs.length = hs.length → shapedList C vs = true → checkFields C hs vs vs = true
+  | [], [], _, _ => rfl
+  | [], _ :: _, hl, _ => by simp at hl
+  | _ :: _, [], hl, _ => by simp at hl
+  | (n, how) :: hs, v :: vs, hl, h => by
+    simp only [shapedList, Bool.and_eq_true] at h
+    simp only [List.length_cons, Nat.add_right_cancel_iff] at hl
+    simp only [checkFields, Bool.and_eq_true]
+    refine ⟨?_, checkFields_refl C hs vs hl h.2⟩
+    cases how with
+    | eq => exact beqVal_refl v
+    | recurse => exact checkEq_refl C v h.1
+    | existsOnly => cases v <;> simp
+    | selfCompare => rfl
+    | notCompared => rfl
+end
+
 end Basyx.Compliance
